@@ -3,7 +3,9 @@
    differential run under the race detector) *)
 From Model Require Import Str Sexp Http Template Table Curly DetectRoute Jsr311 Router Dispatch.
 From Spec Require Import DispatchSpec.
-From Proofs Require Import DispatchProofs ServeProofs.
+From Proofs Require Import DispatchProofs ServeProofs PurityProofs.
+From Coq Require Import List ZArith.
+Import ListNotations.
 
 (* The model of Container.dispatch / ServeHTTP takes the configuration, the request and the
    per-request state (fresh recorder) and nothing else: go-restful keeps no other state
@@ -33,3 +35,53 @@ Proof.
   rewrite !skipn_app, !skipn_all, !PeanoNat.Nat.sub_diag. reflexivity.
 Qed.
 Print Assumptions C19_events.
+
+(* C19 in full for sequential histories.  A history is a list of (entry point, request, headers on the writer at
+   arrival); [serve_all] serves it from a world [w] (the event log written so far, the provider's acquire / release
+   counters, the number of recover-handler calls), every request on a fresh recorder, the world carried on from request
+   to request.  Whatever the configuration (panicking scripts, recovery on or off, content encoding, plain handlers,
+   both routers), whatever the history and the world it starts from: every request of the history gets exactly the
+   answer (panic value, status, headers, raw chunks, compressor contents, attributes, its own events incl. the path
+   parameters and selected route the handler saw) it gets alone on a fresh container. *)
+Definition C19_history_statement : Prop :=
+  forall O cfg hs w i en req h,
+    nth_error hs i = Some (en, req, h) ->
+    exists wi r, nth_error (fst (serve_all O cfg hs w)) i = Some (wi, r) /\
+                 answer_in wi r = answer (serve O cfg en req (st0 h)).
+Theorem C19_history : C19_history_statement.
+Proof. exact history_independent. Qed.
+Print Assumptions C19_history.
+
+(* the law behind it: serving commutes with shifting the world it starts from *)
+Definition C19_frame_statement : Prop :=
+  forall O w cfg en req s, serve O cfg en req (PurityProofs.shift w s) = shift_res w (serve O cfg en req s).
+Theorem C19_frame : C19_frame_statement.
+Proof. exact serve_shift. Qed.
+Print Assumptions C19_frame.
+
+(* not vacuous: a history of an encoded request, a request that panics late (recovered) and the first one again;
+   the third answer equals the first although log and counters have moved on *)
+Example C19_history_example :
+  let O := {| o_lower := lower_ascii; o_rx := fun _ _ => false; o_rxfull := fun _ _ => false |} in
+  let cfg := {| d_table := {| t_router := Curly; t_services := [ {| s_root := L "/"; s_routes :=
+                   [ {| r_id := 1; r_method := L "GET"; r_rel := L "/a"; r_consumes := []; r_produces := [];
+                        r_conds := []; r_noct := []; r_enc := None |};
+                     {| r_id := 2; r_method := L "GET"; r_rel := L "/p/{x}"; r_consumes := []; r_produces := [];
+                        r_conds := []; r_noct := []; r_enc := None |} ] |} ] |};
+                d_cfilters := [ {| f_id := L "c0"; f_pre := [AAttr (L "k") (L "v")]; f_pass := true; f_post := []; f_fresh := false; f_mw := 0 |} ];
+                d_sfilters := []; d_rfilters := [];
+                d_handlers := [(1%Z, [ASee (L "k"); AWrite (L "body")]); (2%Z, [AWrite (L "partial"); APanic (L "boom")])];
+                d_encoding := true; d_recover := true; d_recover_script := [AStatus 500; AWrite (L "<r>")]; d_condpanic := []; d_plain := [] |} in
+  let ra := {| rq_method := L "GET"; rq_path := L "/a"; rq_headers := [(H_AcceptEncoding, L "gzip")]; rq_clen := 0 |} in
+  let rp := {| rq_method := L "GET"; rq_path := L "/p/7"; rq_headers := []; rq_clen := 0 |} in
+  let hs := [(EServeHTTP, ra, []); (EDispatch, rp, []); (EServeHTTP, ra, [])] in
+  let '(out, wf) := serve_all O cfg hs w0 in
+  w_acq wf = 2 /\ w_rel wf = 2 /\ w_rec wf = 1 /\ length (w_log wf) = 14 /\
+  match out with
+  | [(w1, r1); (w2, r2); (w3, r3)] =>
+      answer_in w1 r1 = answer_in w3 r3 /\ w_log w3 <> [] /\
+      snd (fst (fst (snd (answer_in w3 r3)))) = Some (Gzip, [L "body"], true) /\
+      fst (fst (fst (fst (fst (snd (answer_in w2 r2)))))) = Some 200%Z
+  | _ => False
+  end.
+Proof. vm_compute. repeat split; try reflexivity. discriminate. Qed.
